@@ -686,7 +686,7 @@ func (c *SpecCtx) call(e *ECall) (Term, error) {
 		}
 		return Term{fmt.Sprintf("(store %s %s %s)", a.S, i.S, v.S), a.Sort, nil}, nil
 	}
-	if strings.HasPrefix(e.Fun, "is_") && len(e.Args) == 1 {
+	if _, isSpecFn := vc.db.Sigs[e.Fun]; !isSpecFn && strings.HasPrefix(e.Fun, "is_") && len(e.Args) == 1 {
 		// datatype tester: is_some(x)
 		x, err := c.eval(e.Args[0])
 		if err != nil {
@@ -765,6 +765,12 @@ func (c *SpecCtx) call(e *ECall) (Term, error) {
 			return Term{fmt.Sprintf("(sl_off %s)", x.S), vc.isort(), types.Typ[types.Int]}, nil
 		}
 		return Term{fmt.Sprintf("(sl_ref %s)", x.S), "Int", nil}, nil
+	case "rdpos":
+		x, err := c.eval(e.Args[0])
+		if err != nil {
+			return Term{}, err
+		}
+		return Term{fmt.Sprintf("(select %s %s)", vc.get(c.state(), vc.rdposComp()), x.S), "Int", nil}, nil
 	case "chpos":
 		x, err := c.eval(e.Args[0])
 		if err != nil {
